@@ -256,7 +256,7 @@ def run(ck):
                "values may change and when a scan or restore is due; (b) for every service and application type: exact fix timelines per fixing duration and "
                "a second compromise during a fix; (c) the software health correspondence of C13's model")
     coq_props(ck)
-    gen_tie.check(ck, ["health", "software", "file", "folder"])
+    gen_tie.check(ck, ["health", "software", "file", "folder", "nodescan"])
     rng = ck.rng
     coq_in = []
     for k in range(ck.n(220, 1500)):
